@@ -1073,12 +1073,17 @@ func ExpandRoot(p *core.Prog, r *core.Report) {
 				return
 			}
 			g := core.StaticCallee(c)
-			if g == nil || g.Pkg == nil || !strings.HasSuffix(g.Pkg.Pkg.Path(), "go-openapi/spec") {
+			if g == nil || g.Pkg == nil {
+				return
+			}
+			idx := -1
+			if _, rootIdx, isW := expandWrapper(g); isW {
+				idx = rootIdx // a thin wrapper of the package around spec.ExpandSchema: its root argument counts
+			} else if !strings.HasSuffix(g.Pkg.Pkg.Path(), "go-openapi/spec") {
 				return
 			}
 			sig := g.Signature
-			idx := -1
-			for k := 0; k < sig.Params().Len(); k++ {
+			for k := 0; idx < 0 && k < sig.Params().Len(); k++ {
 				if sig.Params().At(k).Name() == "root" {
 					idx = k
 				}
@@ -1251,7 +1256,10 @@ func CloneFaithful(p *core.Prog, r *core.Report) {
 				return
 			}
 			g := core.StaticCallee(c)
-			if g == nil || core.QualName(g) != "spec.ExpandSchema" {
+			if g == nil {
+				return
+			}
+			if _, _, isW := expandWrapper(g); core.QualName(g) != "spec.ExpandSchema" && !isW {
 				return
 			}
 			key := core.FuncName(f) + ":probe"
@@ -1631,4 +1639,105 @@ func ValueOptions(p *core.Prog, r *core.Report) {
 	r.Count("walker_option_stores", nStores)
 	r.Floor("value_validator_options", 8)
 	r.Floor("walker_option_stores", 2)
+}
+
+// PANIC-BOUNDARY — go-openapi/spec panics (a method called on a typed nil pointer) when a JSON pointer lands on an
+// optional member the document does not declare (`#/paths/~1a/put` without a put, `#/definitions/a/items`,
+// `#/info/contact` …): the resolver walks the typed document, gets a nil pointer back without an error and
+// marshals it. Specification validation promises to return its two results whatever the document contains: every
+// call it makes into that reference machinery must therefore sit behind a recover (a deferred function literal
+// that calls recover, in the calling function or in a wrapper the call is made through). Dependencies are
+// otherwise trusted; this rule exists because that trust is known to be misplaced here.
+func PanicBoundary(p *core.Prog, r *core.Report) {
+	const rule = "PANIC-BOUNDARY"
+	scope := specScope(p)
+	recovers := func(f *ssa.Function) bool {
+		found := false
+		var visit func(g *ssa.Function)
+		visit = func(g *ssa.Function) {
+			core.EachInstr(g, func(i ssa.Instruction) {
+				if c, ok := i.(ssa.CallInstruction); ok {
+					if b, isB := c.Common().Value.(*ssa.Builtin); isB && b.Name() == "recover" {
+						found = true
+					}
+				}
+			})
+		}
+		core.EachInstr(f, func(i ssa.Instruction) {
+			if d, ok := i.(*ssa.Defer); ok {
+				if mc, ok := d.Call.Value.(*ssa.MakeClosure); ok {
+					if fn, ok := mc.Fn.(*ssa.Function); ok {
+						visit(fn)
+					}
+				}
+				if fn, ok := d.Call.Value.(*ssa.Function); ok {
+					visit(fn)
+				}
+			}
+		})
+		return found
+	}
+	n := 0
+	seq := map[string]int{}
+	for _, f := range p.Funcs {
+		top := core.EnclosingTop(f)
+		if !scope[top] {
+			continue
+		}
+		core.EachInstr(f, func(i ssa.Instruction) {
+			c, ok := i.(ssa.CallInstruction)
+			if !ok {
+				return
+			}
+			g := core.StaticCallee(c)
+			if g == nil {
+				return
+			}
+			q := core.QualName(g)
+			machinery := strings.HasPrefix(q, "spec.Expand") || strings.HasPrefix(q, "spec.ResolveRef") || q == "(*loads.Document).Expanded"
+			if !machinery {
+				return
+			}
+			n++
+			base := core.FuncName(top) + ":" + g.Name()
+			seq[base]++
+			key := base
+			if seq[base] > 1 {
+				key = fmt.Sprintf("%s#%d", base, seq[base])
+			}
+			// behind a recover: in this function, an enclosing one (closure handed to a wrapper), or the wrapper
+			// that runs the closure
+			guarded := false
+			for h := f; h != nil; h = h.Parent() {
+				if recovers(h) {
+					guarded = true
+				}
+			}
+			if !guarded && f.Parent() != nil {
+				// the closure is an argument of a wrapper that recovers
+				core.EachInstr(f.Parent(), func(j ssa.Instruction) {
+					cc, ok := j.(ssa.CallInstruction)
+					if !ok {
+						return
+					}
+					w := core.StaticCallee(cc)
+					if w == nil || !recovers(w) {
+						return
+					}
+					for _, a := range cc.Common().Args {
+						if mc, ok := a.(*ssa.MakeClosure); ok && mc.Fn == ssa.Value(f) {
+							guarded = true
+						}
+					}
+				})
+			}
+			if guarded {
+				r.OK(rule, key, p.Pos(i.Pos()), "behind a recover")
+			} else {
+				r.Bad(rule, key, p.Pos(i.Pos()), core.FuncName(top)+" calls "+q+" with no recover on the way: a reference whose JSON pointer lands on an optional member the document does not declare ($ref: '#/paths/~1a/put' when /a has no put; '#/definitions/a/items'; '#/info/contact') makes go-openapi/spec call MarshalJSON on a typed nil pointer, and validate.Spec panics instead of returning its results")
+			}
+		})
+	}
+	r.Count("reference_machinery_calls", n)
+	r.Floor("reference_machinery_calls", 5)
 }
